@@ -228,9 +228,9 @@ func TestC02Stress(t *testing.T) {
 	r := NewRun(t, "C02", "stress")
 	r.Rule = "free-running RunSequencer (2 ms period) against 8-24 concurrent submitter goroutines drawing new and duplicate entries, seeded delays inside the checkpoint upload; every acknowledgement is judged against the object store as of its instant and against the final stored leaves; distinct = (round, source label, size mod 256 at ack)"
 	rng := NewRng(r.Seed, "c02s")
-	reps, per := pick(3, 12), pick(300, 500)
+	reps, per := pick(3, 8), pick(300, 400)
 	if raceEnabled {
-		reps, per = pick(1, 6), pick(80, 200)
+		reps, per = pick(1, 3), pick(80, 120)
 	}
 	shard, _ := shardInfo()
 	for rep := 0; rep < reps; rep++ {
